@@ -187,3 +187,17 @@ reg('C02',
     '(its permutation consistency is C12). Aromatic inputs are normalised (kekule+thiele) before writing.',
     'bounded exhaustive enumeration of molecules x format options x writer traversals (stateless choice-point exploration, deviation bounded)',
     'DESIGN.md s3.4, s5 C02')
+
+reg('C12',
+    'Per centre, exhaustively: ten tetrahedral centres (4 neighbours; 3 + implicit H; 3 + explicit H at every position; ring, bridgehead, first-atom) x '
+    'all 24 / 6 neighbour orders and 3-atom environments x both stored signs - the reported sign must flip exactly on odd permutations and translating '
+    'back must be the inverse; cis/trans and allene centres x every choice of end substituents incl. explicit hydrogens - the sign flips exactly when one '
+    'end is exchanged. Spellings: for centres, alkenes, the ring/spiro stereo family and the stereo part of the corpus, every traversal of the random-'
+    'order writer (choice-point explorer; unbounded <=7 atoms) and RDKit spellings over roots x renumberings must denote, for RDKit, the same stereoisomer '
+    'before and after reading. All 2^s label combinations of 12 templates x all pairs: == iff RDKit identity; labels survive exactly on stereogenic '
+    'centres (C(a)(b)(c)(d) and abC=Ccd over substituent alphabets, ring double bonds of every ring size 3..12); own wedge map -> add_wedge restores '
+    'every sign on RDKit 2D coordinates and RDKit reads the written MolBlock as the same stereoisomer.',
+    'Trusted: RDKit as independent toolkit; permutation parity (vf/oracle/parity.py). Non-carbon stereocentres are out of domain. Molecules with up to 8 '
+    'stereo elements are covered through the corpus and templates with up to 4 labels only.',
+    'complete enumeration of neighbour permutations and bounded exhaustive enumeration of spellings (choice-point exploration) vs parity and RDKit',
+    'DESIGN.md s5 C12')
